@@ -1020,11 +1020,15 @@ class Translator:
         # so that the tie theorems (Props/Tie/GraphPy.lean) stop building
         files[os.path.join(gen, "GraphPy.lean")] = getattr(self, "graph_txt", None) or (
             "import GraphSlam.Core.Scalar\n\n/-! GENERATED: graph.py snippets could NOT be located in the current source:\n%s -/\n" % str(getattr(self, "graph_error", "not translated")).replace("-/", "- /"))
+        import py2lean_cmp as _PCM
+
+        files[os.path.join(gen, "CmpPy.lean")] = getattr(self, "cmp_txt", None) or _PCM.stub(str(getattr(self, "cmp_error", "not translated")))
         man = []
         for d in self.defs:
             m = {k: v for k, v in d.items() if k != "body"}
             man.append(m)
         man += getattr(self, "graph_man", [])
+        man += getattr(self, "cmp_man", [])
         files[os.path.join(out, "generated_manifest.json")] = json.dumps(dict(repo=self.repo, defs=man), indent=1, default=list) + "\n"
         changed = []
         for p, txt in files.items():
@@ -1124,7 +1128,7 @@ def main(argv):
 
     graph = dict(status="ok")
     try:
-        tr.graph_txt, tr.graph_man = PG.translate(open(os.path.join(a.repo, "graphslam", "graph.py")).read(), open(os.path.join(a.repo, "graphslam", "edge", "base_edge.py")).read())
+        tr.graph_txt, tr.graph_man = PG.translate(open(os.path.join(a.repo, "graphslam", "graph.py")).read(), open(os.path.join(a.repo, "graphslam", "edge", "base_edge.py")).read(), {r: open(os.path.join(a.repo, "graphslam", "edge", r)).read() for r in ("edge_odometry.py", "edge_landmark.py")})
         graph["defs"] = len(tr.graph_man)
     except PG.Untranslatable as e:
         tr.graph_error = str(e)
@@ -1132,8 +1136,20 @@ def main(argv):
     except (KeyError, SyntaxError, FileNotFoundError, IndexError, AttributeError, TypeError, ValueError) as e:
         tr.graph_error = "%s: %s" % (type(e).__name__, e)
         graph = dict(status="untranslatable", file="graphslam/graph.py", line=0, reason=tr.graph_error)
+    import py2lean_cmp as PCM
+
+    cmp_ = dict(status="ok")
+    try:
+        tr.cmp_txt, tr.cmp_man = PCM.translate(a.repo)
+        cmp_["defs"] = len(tr.cmp_man)
+    except PCM.Untranslatable as e:
+        tr.cmp_error = str(e)
+        cmp_ = dict(status="untranslatable", file=getattr(e, "file", "?"), line=getattr(e, "line", 0), reason=getattr(e, "reason", str(e)))
+    except (KeyError, SyntaxError, FileNotFoundError, IndexError, AttributeError, TypeError, ValueError) as e:
+        tr.cmp_error = "%s: %s" % (type(e).__name__, e)
+        cmp_ = dict(status="untranslatable", file="?", line=0, reason=tr.cmp_error)
     changed = tr.write(os.path.abspath(a.out))
-    print(json.dumps(dict(status="ok", defs=len(tr.defs) + len(getattr(tr, "graph_man", [])), changed=changed, graph=graph)))
+    print(json.dumps(dict(status="ok", defs=len(tr.defs) + len(getattr(tr, "graph_man", [])) + len(getattr(tr, "cmp_man", [])), changed=changed, graph=graph, cmp=cmp_)))
     return 0
 
 
